@@ -74,6 +74,12 @@ var c18Sections = []struct {
 		x("missing-name", "backends:\n  - name: ok\n    address: http://127.0.0.1:9\n  - address: http://127.0.0.1:9\n"),
 		x("missing-address", "backends:\n  - name: a\n"),
 		x("negative-weight", "backends:\n  - name: a\n    address: http://127.0.0.1:9\n  - name: b\n    address: http://127.0.0.1:9\n    weight: -1\n"),
+		// the same defects at the first and at a middle position of the list (a validator that
+		// lets a later entry overwrite the verdict is position-dependent)
+		x("missing-name-first", "backends:\n  - address: http://127.0.0.1:9\n  - name: ok\n    address: http://127.0.0.1:9\n"),
+		x("missing-address-first", "backends:\n  - name: a\n  - name: ok\n    address: http://127.0.0.1:9\n"),
+		x("negative-weight-middle", "backends:\n  - name: a\n    address: http://127.0.0.1:9\n  - name: b\n    address: http://127.0.0.1:9\n    weight: -1\n  - name: c\n    address: http://127.0.0.1:9\n"),
+		v("zero-weight", "backends:\n  - name: a\n    address: http://127.0.0.1:9\n    weight: 0\n"),
 	}},
 	{"load_balancer.strategy", []frag{
 		v("round_robin", "load_balancer:\n  strategy: \"round_robin\"\n"),
